@@ -152,7 +152,9 @@ class AstGen:
         if k == 'ret':
             return Return(r.choice(['RETURN', 'RET']), self.int_expr(sc, 1) if self.chance(0.3) else None)
         if k == 'prnt':
-            if self.chance(0.5): return Print(text=f'msg {self.tag()}')
+            if self.chance(0.5):
+                # texts that a console, a markup renderer or a formatter might treat specially
+                return Print(text=r.choice(['msg {t}', '[red] alert {t}', '[/] {t}', '[item 3] {t}', '[bold]{t}[/bold]', '{t} 100%', '{{x}} {t}', '"{t}"', '{t} a\\b', '{t} \\', '#{t}', '{t}: [link=x]y[/link]', '<{t}>', '$ {t}', '{t}\\n']).replace('{t}', self.tag()).replace('{{x}}', '{x}'))
             return Print(expr=Bin('+', Lit(f'{self.tag()}:'), self.int_expr(sc)))
         if k == 'exist':
             if sc.vars and self.chance(0.6): return Exist(r.choice(sorted(sc.vars)))
